@@ -1908,3 +1908,8 @@ impl<S: IndexedFull> Repository<S> {
         rewrite_snapshots_and_trees(self, snapshots, opts, tree_opts)
     }
 }
+
+// verification hook (guard: cfg(kani), set only by the Kani compiler): harnesses live in /verif/kani
+#[cfg(kani)]
+#[path = "/verif/kani/repository.rs"]
+mod verif_kani;
